@@ -689,6 +689,83 @@ func durationExtremes() *core.Family {
 	}
 }
 
+// conversions between the Cedar scalars and Go's own types, and the arithmetic accessors:
+// exact value or an error, never a wrapped one.
+func goConversions() *core.Family {
+	is := boundaryInts()
+	for _, q := range []int64{math.MaxInt64 / 1000000, math.MaxInt64 / 1000, math.MaxInt64 / 86400000, 9223372036854} {
+		for _, d := range []int64{-2, -1, 0, 1, 2} {
+			is = append(is, q+d, -(q + d))
+		}
+	}
+	bi := func(x int64) *big.Int { return big.NewInt(x) }
+	quoTrunc := func(a, b int64) *big.Int { return new(big.Int).Quo(bi(a), bi(b)) } // Quo truncates toward zero
+	return &core.Family{
+		Name: "go-conversions",
+		Desc: fmt.Sprintf("%d boundary values (+-2^k, +-10^k, the limits of every unit conversion): Duration.ToDays/Hours/Minutes/Seconds/Milliseconds (truncating quotients), Duration.Duration() (exact nanoseconds or an error), NewDuration(time.Duration) (within the same millisecond), NewDatetime(t) / Datetime.Time() / Milliseconds() round trips, Decimal.Compare and Decimal.Float", len(is)),
+		N:    int64(len(is)),
+		Run: func(t *core.T, idx int64) {
+			x := is[idx]
+			in := fmt.Sprint(x)
+			d := types.NewDurationFromMillis(x)
+			for name, c := range map[string]struct{ got, div int64 }{"ToDays": {d.ToDays(), 86400000}, "ToHours": {d.ToHours(), 3600000}, "ToMinutes": {d.ToMinutes(), 60000}, "ToSeconds": {d.ToSeconds(), 1000}, "ToMilliseconds": {d.ToMilliseconds(), 1}} {
+				if want := quoTrunc(x, c.div); want.Cmp(bi(c.got)) != 0 {
+					t.Fail("duration-accessor:"+name, "duration of "+in+" ms", want.String(), fmt.Sprint(c.got))
+				}
+			}
+			gd, err := d.Duration()
+			exact := new(big.Int).Mul(bi(x), bi(1000000))
+			switch {
+			case exact.IsInt64() && err != nil:
+				t.Fail("Duration.Duration-spurious-error", in+" ms", exact.String()+" ns", err.Error())
+			case exact.IsInt64() && int64(gd) != exact.Int64():
+				t.Fail("Duration.Duration-wrong-value", in+" ms", exact.String()+" ns", fmt.Sprint(int64(gd)))
+			case !exact.IsInt64() && err == nil:
+				t.Fail("Duration.Duration-wrapped", in+" ms", "an error (the value does not fit a time.Duration)", fmt.Sprintf("%d ns", int64(gd)))
+			}
+			// x as nanoseconds
+			nd := types.NewDuration(time.Duration(x))
+			if diff := new(big.Int).Sub(new(big.Int).Mul(bi(nd.ToMilliseconds()), bi(1000000)), bi(x)); diff.CmpAbs(bi(1000000)) >= 0 || (x != 0 && nd.ToMilliseconds() != 0 && (nd.ToMilliseconds() < 0) != (x < 0)) {
+				t.Fail("NewDuration-inexact", in+" ns", "the same millisecond", fmt.Sprint(nd.ToMilliseconds(), " ms"))
+			}
+			// datetimes
+			dt := types.NewDatetimeFromMillis(x)
+			if dt.Milliseconds() != x || dt.Time().UnixMilli() != x || types.NewDatetime(dt.Time()) != dt || !dt.Time().Equal(time.UnixMilli(x)) || dt.Time().Location() != time.UTC {
+				t.Fail("datetime-time-roundtrip", in+" ms", "Milliseconds, Time and NewDatetime agree", fmt.Sprint(dt.Milliseconds(), dt.Time().UnixMilli(), types.NewDatetime(dt.Time()).Milliseconds()))
+			}
+			if x > -1<<52 && x < 1<<52 {
+				// a time with sub-millisecond digits is truncated to its millisecond (floor)
+				tm := time.UnixMilli(x).Add(999 * time.Microsecond)
+				if got := types.NewDatetime(tm).Milliseconds(); got != x {
+					t.Fail("NewDatetime-truncation", tm.Format(time.RFC3339Nano), in, fmt.Sprint(got))
+				}
+			}
+			// decimals (x as raw ten-thousandths)
+			dx, e1 := types.NewDecimal(x, -4)
+			dy, e2 := types.NewDecimal(is[(idx+1)%int64(len(is))], -4)
+			if e1 == nil && e2 == nil {
+				y := is[(idx+1)%int64(len(is))]
+				want := 0
+				if x < y {
+					want = -1
+				} else if x > y {
+					want = 1
+				}
+				if dx.Compare(dy) != want || dy.Compare(dx) != -want || dx.Compare(dx) != 0 {
+					t.Fail("Decimal.Compare", fmt.Sprintf("%d vs %d ten-thousandths", x, y), fmt.Sprint(want), fmt.Sprint(dx.Compare(dy)))
+				}
+				f := dx.Float()
+				ex := float64(x) / 10000
+				if math.Abs(f-ex) > math.Abs(ex)*1e-15+1e-300 {
+					t.Fail("Decimal.Float", in+" ten-thousandths", fmt.Sprint(ex), fmt.Sprint(f))
+				}
+			}
+			t.Nontrivial()
+			t.Sample(in)
+		},
+	}
+}
+
 func durationSubsets() *core.Family {
 	us := []string{"d", "h", "m", "s", "ms"}
 	qs := []string{"0", "1", "59", "1000", "106751991167", "9223372036854775807", "9223372036854775808", "01"}
@@ -959,7 +1036,7 @@ func Check() *core.Check {
 		Families: func(tier string) []*core.Family {
 			th := tier == "thorough"
 			fams := []*core.Family{longFamily(), decimalSmall(), decimalBoundary(), decimalNeighbourhood(), newDecimalFamily(), floatFamily(),
-				datetimeGrid(true), datetimeLeapYears(th), datetimeRender(true), datetimeNeighbourhood(), durationValues(), durationSubsets(), durationExtremes(), durationNeighbourhood(), ipFamily(),
+				datetimeGrid(true), datetimeLeapYears(th), datetimeRender(true), datetimeNeighbourhood(), durationValues(), durationSubsets(), durationExtremes(), goConversions(), durationNeighbourhood(), ipFamily(),
 				entityUIDScalars(0, 0x10FFFF, "entityuid-all-scalars")}
 			_ = th
 			return append(fams, ed2Family())
